@@ -131,7 +131,7 @@ def ref_expand(frag_smiles, bidx, comp_smiles, comp_idx):
 
     def an_h(idx):
         for n in combo.GetAtomWithIdx(idx).GetNeighbors():
-            if n.GetAtomicNum() == 1:
+            if n.GetAtomicNum() == 1 and n.GetIsotope() == 0:  # an ordinary hydrogen, never an isotope label
                 return n.GetIdx()
         return None
     h1, h2 = an_h(bidx), an_h(off + comp_idx)
@@ -221,9 +221,9 @@ def one_cut(ps, parent, i, j, res, merge, CompoundSet, rng=None):
         if set(names) & RESTRICTIONS:
             if "." not in got and "." not in want:
                 res.viol("restriction_rule_reported_but_bond_formed", rules=names, smiles=result.smiles, **w)
-        elif names == ["default single bond"]:
-            if got != want:
-                res.viol("cut_merge_round_trip_differs", rules=names, smiles=result.smiles, want=want, **w)
+        elif got != want:
+            # no restriction rule reported: the original molecule must be back, whichever rules are named
+            res.viol("cut_merge_round_trip_differs", rules=names, smiles=result.smiles, want=want, **w)
     # --- single-fragment mode
     from synrbl.SynMCSImputer.rules import ExpandRule
     for (fs, bi, sym), nb in ((fa, j), (fb, i)):
@@ -287,6 +287,15 @@ CONSTRUCTED = [
 ]
 
 
+# molecules with isotope-labelled hydrogens (atoms of the graph) and sulfur / oxygen - halogen bonds
+LABELLED = [
+    "[2H]C([2H])(O)CCc1ccccc1", "[2H]OC(C)=O", "[2H]C([2H])([2H])OC(=O)CC", "[2H]N(CC)C(C)=O", "CC([2H])(C)OCC",
+    "[2H]c1ccccc1COC", "[3H]C(C)NCC", "[2H]C([2H])=CCOC", "CS(=O)(=O)Cl", "CSCl", "c1ccccc1S(=O)(=O)F", "CSBr",
+    "CS(=O)Cl", "CCS(=O)(=O)I", "COCl", "CNCl", "[2H]C([2H])(Cl)S(=O)(=O)Cl", "CC(=O)SC([2H])([2H])C",
+    "[2H]OCCOC(C)=O", "C[Si](C)(C)OC([2H])C",
+]
+
+
 def constructed(res, merge, CompoundSet):
     import itertools
     for frs, note in CONSTRUCTED:
@@ -328,6 +337,7 @@ def plan(tier, seed):
         if d and "." not in d and oracle.in_domain_smiles(d):
             pick.append(d)
     shards = [{"mols": c} for c in common.stripe(pick, 14 if q else 44)]
+    shards.append({"mols": [m for m in LABELLED if oracle.parse(m) is not None], "labelled": True})
     shards.append({"constructed": True})
     shards.append({"pipeline": 60 if q else 600})
     return shards
@@ -353,6 +363,8 @@ def work(shard, res, tier, seed):
             constructed(res, merge, CompoundSet)
         return
     if "mols" in shard:
+        if shard.get("labelled"):
+            res.count("labelled_or_sulfur_halide_molecules", len(shard["mols"]))
         for s in shard["mols"]:
             ps = Chem.MolToSmiles(Chem.MolFromSmiles(s))
             parent = Chem.MolFromSmiles(ps)
@@ -401,4 +413,4 @@ def pipeline_part(n, seed, res):
 
 def conclude_args(res, tier, seed):
     return {"need": {"two_fragment_merges": 1000, "single_fragment_merges": 1000, "reference_expansions": 300,
-                     "constructed_merges": 20, "pipeline_merges": 10}, "min_cases": 1000}
+                     "constructed_merges": 20, "pipeline_merges": 10, "labelled_or_sulfur_halide_molecules": 10}, "min_cases": 1000}
